@@ -46,14 +46,14 @@ type (
 
 type QVar struct{ Name, Type string }
 
-type token struct {
+type tok_ struct {
 	kind string // id num str op eof
 	text string
 	pos  int
 }
 
-func tokenize(s string) ([]token, error) {
-	var toks []token
+func tokenize(s string) ([]tok_, error) {
+	var toks []tok_
 	i := 0
 	ops := []string{"<==>", "==>", "&&", "||", "==", "!=", "<=", ">=", "<<", ">>", "&^", "::", "..", "+", "-", "*", "/", "%", "&", "|", "^", "<", ">", "!", "(", ")", "[", "]", "{", "}", ".", ",", ":", "?"}
 	for i < len(s) {
@@ -66,14 +66,14 @@ func tokenize(s string) ([]token, error) {
 			for j < len(s) && (s[j] >= '0' && s[j] <= '9' || s[j] >= 'a' && s[j] <= 'f' || s[j] >= 'A' && s[j] <= 'F' || s[j] == 'x' || s[j] == 'X' || s[j] == '_') {
 				j++
 			}
-			toks = append(toks, token{"num", s[i:j], i})
+			toks = append(toks, tok_{"num", s[i:j], i})
 			i = j
 		case c == '_' || c == '$' || c >= 'a' && c <= 'z' || c >= 'A' && c <= 'Z':
 			j := i
 			for j < len(s) && (s[j] == '_' || s[j] == '$' || s[j] >= 'a' && s[j] <= 'z' || s[j] >= 'A' && s[j] <= 'Z' || s[j] >= '0' && s[j] <= '9') {
 				j++
 			}
-			toks = append(toks, token{"id", s[i:j], i})
+			toks = append(toks, tok_{"id", s[i:j], i})
 			i = j
 		case c == '"':
 			j := i + 1
@@ -83,13 +83,13 @@ func tokenize(s string) ([]token, error) {
 			if j >= len(s) {
 				return nil, fmt.Errorf("unterminated string at %d", i)
 			}
-			toks = append(toks, token{"str", s[i+1 : j], i})
+			toks = append(toks, tok_{"str", s[i+1 : j], i})
 			i = j + 1
 		default:
 			found := false
 			for _, op := range ops {
 				if strings.HasPrefix(s[i:], op) {
-					toks = append(toks, token{"op", op, i})
+					toks = append(toks, tok_{"op", op, i})
 					i += len(op)
 					found = true
 					break
@@ -100,12 +100,12 @@ func tokenize(s string) ([]token, error) {
 			}
 		}
 	}
-	toks = append(toks, token{"eof", "", len(s)})
+	toks = append(toks, tok_{"eof", "", len(s)})
 	return toks, nil
 }
 
 type parser struct {
-	toks []token
+	toks []tok_
 	p    int
 	src  string
 }
@@ -127,7 +127,7 @@ func ParseExpr(s string) (e Expr, err error) {
 	}()
 	e = ps.expr(0)
 	if ps.peek().kind != "eof" {
-		ps.fail("unexpected token %q", ps.peek().text)
+		ps.fail("unexpected tok_ %q", ps.peek().text)
 	}
 	return e, nil
 }
@@ -137,8 +137,8 @@ type parseErr string
 func (p *parser) fail(f string, a ...interface{}) {
 	panic(parseErr(fmt.Sprintf(f, a...) + fmt.Sprintf(" at offset %d", p.peek().pos)))
 }
-func (p *parser) peek() token { return p.toks[p.p] }
-func (p *parser) next() token { t := p.toks[p.p]; p.p++; return t }
+func (p *parser) peek() tok_ { return p.toks[p.p] }
+func (p *parser) next() tok_ { t := p.toks[p.p]; p.p++; return t }
 func (p *parser) isOp(s string) bool {
 	t := p.peek()
 	return t.kind == "op" && t.text == s
@@ -249,7 +249,7 @@ func (p *parser) primary() Expr {
 		}
 	}
 	p.p--
-	p.fail("unexpected token %q", t.text)
+	p.fail("unexpected tok_ %q", t.text)
 	return nil
 }
 
